@@ -42,6 +42,10 @@ def run(ctx):
     ctx.rule('C09.6', '2D hash region and 2D bounds obligations')
     pl, prods = PR.producers(P, G)
     edge_rules(ctx, 'C09.1', pl, prods, only_2d=True)
+    from .. import groupcount
+    for pr in prods:
+        if pr.is_2d:
+            groupcount.check_producer(ctx, 'C09.1', pr.func)
     ctx.floor('C09.1', 2)
     layout_predicate(ctx, 'C09.2')
     header_branch(ctx)
